@@ -10,3 +10,14 @@ def register(m):
       "symbols.neutron_flux.dimension * units.length,", "symbols.neutron_flux.dimension,", "H1")
     m("C01", "c01-equivalent-rewrite-ok", "symplyphysics/laws/dynamics/kinetic_energy_from_mass_and_speed.py",
       "speed**2", "speed * speed", "SILENT")
+
+
+_o = register
+
+
+def register(m):
+    _o(m)
+    m("C01", "c01-vector-law-adds-force-to-acceleration", "symplyphysics/laws/dynamics/vector/relative_acceleration_from_force.py",
+      "        scale_vector(1 / mass, force_),\n        coriolis_acceleration_,", "        force_,\n        coriolis_acceleration_,", "H5")
+    m("C01", "c01-vector-law-wrong-power", "symplyphysics/laws/waves/vector/phase_velocity_from_angular_velocity_and_wavevector.py",
+      "        angular_frequency / wavenumber_**2,", "        angular_frequency / wavenumber_,", "H5")
